@@ -6,7 +6,7 @@
    rule_mom1 / rule_mom2 / variance_of = expectation, second moment and variance computed from a rule with weights w on
    model values f (moments_to_expectation_variance takes the absolute value of a negative variance). *)
 From Coq Require Import ZArith List QArith Qcanon Bool Arith Lia.
-From SG Require Import Base.QcUtil Model.Trap Model.UQ Proofs.TrapBasics Proofs.UQ.
+From SG Require Import Base.QcUtil Model.Trap Model.UQ Model.UQGrid Proofs.TrapBasics Proofs.UQ Proofs.UQGrid Proofs.UQTriangle.
 Import ListNotations.
 Open Scope Qc_scope.
 
@@ -89,6 +89,137 @@ Proof. exact variance_from_moments_affine. Qed.
 Print Assumptions C15_variance_affine.
 Print Assumptions C15_constant_model.
 
+(* ==== second part (Model/UQGrid.v, Proofs/UQGrid.v, Proofs/UQTriangle.v) ==== *)
+
+(* ---- the triangle distribution on [a,b] with mode a < c < b in closed form (piecewise quadratic cdf, piecewise cubic first
+   moment): the interval-moment hypotheses hold on every interval inside [a,b] - left of the mode, right of it, containing it;
+   hence for EVERY grid a = x_0 < ... < x_n = b the weights exist (no clipping, no assert), are non-negative and sum to 1 ---- *)
+Theorem C15_triangle_moments_ok : forall a c b x,
+  a < c -> c < b -> strictly_increasing x -> (forall t, In t x -> a <= t /\ t <= b) ->
+  forall iv, In iv (tri_ivals a c b x) -> ival_ok iv.
+Proof. exact tri_ivals_ok. Qed.
+Theorem C15_wtrap_triangle_probability : forall x a c b,
+  a < c -> c < b -> strictly_increasing x -> (2 <= length x)%nat -> nq x 0 = a -> nq x (length x - 1) = b ->
+  exists w, wtrap true false a b (tri_ivals a c b x) = Some w /\ sumQ w = 1 /\ (forall q, In q w -> 0 <= q).
+Proof. exact wtrap_triangle_probability. Qed.
+Theorem C15_wtrap_triangle_subgrid : forall x a c b,
+  a < c -> c < b -> strictly_increasing x -> (2 <= length x)%nat -> a <= nq x 0 -> nq x (length x - 1) <= b ->
+  exists w, wtrap true false a b (tri_ivals a c b x) = Some w /\
+            sumQ w = tri_cdf a c b (nq x (length x - 1)) - tri_cdf a c b (nq x 0) /\ (forall q, In q w -> 0 <= q).
+Proof. exact wtrap_triangle_subgrid. Qed.
+Print Assumptions C15_wtrap_triangle_probability.
+Print Assumptions C15_wtrap_triangle_subgrid.
+
+(* ---- without boundary points under the moment hypotheses: the inner composite weights renormalised, nothing clipped ---- *)
+Theorem C15_wtrap_noboundary_ok : forall a b ivs,
+  (3 <= length ivs)%nat -> (forall iv, In iv ivs -> ival_ok iv) ->
+  let inner := strip (accum 0 ivs) in
+  sumQ inner <> 0 ->
+  wtrap false false a b ivs = Some (0 :: map (fun v => (1 / sumQ inner) * v) inner ++ [0]).
+Proof. exact wtrap_noboundary_ok. Qed.
+(* ---- ARBITRARY (rounded) moments with boundary points: the clipping moves the sum by less than (number of points) * 1e-5 ---- *)
+Theorem C15_wtrap_boundary_sum_robust : forall a b ivs w,
+  (1 <= length ivs)%nat -> wtrap true false a b ivs = Some w ->
+  sum_m0 ivs <= sumQ w /\ sumQ w <= sum_m0 ivs + qc_of_Z (Z.of_nat (S (length ivs))) * clip_tol.
+Proof. exact wtrap_boundary_sum_robust. Qed.
+Print Assumptions C15_wtrap_noboundary_ok.
+Print Assumptions C15_wtrap_boundary_sum_robust.
+
+(* ---- GlobalGrid.set_grid of the d-dimensional weighted grid: the weights stored for dimension d are a function of the request
+   of dimension d alone (its points, its distribution's moments, the boundary flag) - no other dimension, no earlier request ---- *)
+Theorem C15_set_grid_dimension_independent : forall boundary mb dims1 dims2 ws1 ws2 d,
+  set_grid_weights boundary mb dims1 = Some ws1 -> set_grid_weights boundary mb dims2 = Some ws2 ->
+  (d < length dims1)%nat -> (d < length dims2)%nat ->
+  nth d dims1 {| d_a := 0; d_b := 0; d_ivs := [] |} = nth d dims2 {| d_a := 0; d_b := 0; d_ivs := [] |} ->
+  nth d ws1 [] = nth d ws2 [].
+Proof. exact set_grid_weights_dimension_independent. Qed.
+Theorem C15_grid_weights_noboundary_probability : forall r w,
+  grid_weights_1d false false r = Some w -> (2 <= length (d_ivs r))%nat -> prob_vector w.
+Proof. exact grid_weights_1d_noboundary_probability. Qed.
+Theorem C15_grid_weights_boundary : forall r,
+  (1 <= length (d_ivs r))%nat -> (forall iv, In iv (d_ivs r) -> ival_ok iv) ->
+  exists w, grid_weights_1d true false r = Some w /\ sumQ w = sum_m0 (d_ivs r) /\ forall q, In q w -> 0 <= q.
+Proof. exact grid_weights_1d_boundary. Qed.
+Print Assumptions C15_set_grid_dimension_independent.
+Print Assumptions C15_grid_weights_noboundary_probability.
+
+(* ---- get_weights: the tensor product of probability vectors is a probability vector, in every number of dimensions ---- *)
+Theorem C15_tensor_weights_sum : forall ws, sumQ (tensor_weights ws) = prodQ (map sumQ ws).
+Proof. exact tensor_weights_sum. Qed.
+Theorem C15_tensor_probability : forall ws, (forall w, In w ws -> prob_vector w) -> prob_vector (tensor_weights ws).
+Proof. exact tensor_probability. Qed.
+(* ---- get_points_and_weights of the combination: coefficients summing to 1 (C01, C03), 1D weights summing to 1 ---- *)
+Theorem C15_combined_weights_sum : forall comps,
+  sumQ (combined_weights comps) = sumQ (map (fun cw => fst cw * prodQ (map sumQ (snd cw))) comps).
+Proof. exact combined_weights_sum. Qed.
+Theorem C15_combined_weights_sum_one : forall comps,
+  sumQ (map fst comps) = 1 -> (forall cw, In cw comps -> forall w, In w (snd cw) -> sumQ w = 1) ->
+  sumQ (combined_weights comps) = 1.
+Proof. exact combined_weights_sum_one. Qed.
+Print Assumptions C15_tensor_probability.
+Print Assumptions C15_combined_weights_sum_one.
+
+(* ---- the vector valued expectation-variance function [f | f^2] integrated by a rule, and what
+   calculate_expectation_and_variance makes of it: per output component the scalar expectation and variance; the
+   nodes-and-weights path (use_combiinstance_solution=False) returns the same pair ---- *)
+Theorem C15_integrate_rule_comp : forall K w vals j,
+  (forall v, In v vals -> length v = K) -> length w = length vals ->
+  nq (integrate_rule K w vals) j = dotQ w (comp j vals).
+Proof. exact integrate_rule_comp. Qed.
+Theorem C15_ev_combi_spec : forall K w vals,
+  (forall v, In v vals -> length v = K) -> length w = length vals ->
+  ev_combi K w vals = (map (fun j => rule_mom1 w (comp j vals)) (seq 0 K), map (fun j => variance_of w (comp j vals)) (seq 0 K)).
+Proof. exact ev_combi_spec. Qed.
+Theorem C15_ev_nodes_is_ev_combi : forall K w vals,
+  (forall v, In v vals -> length v = K) -> length w = length vals -> ev_nodes K w vals = ev_combi K w vals.
+Proof. exact ev_nodes_spec. Qed.
+(* ---- end to end: the vector model (f, c f + e) on ONE rule whose weights sum to 1 (weights of either sign) ---- *)
+Theorem C15_uq_affine_vector_model : forall w f c e,
+  length w = length f -> sumQ w = 1 ->
+  ev_combi 2 w (map (fun t => [t; c * t + e]) f)
+  = ([rule_mom1 w f; c * rule_mom1 w f + e], [variance_of w f; c * c * variance_of w f]).
+Proof. exact uq_affine_vector_model. Qed.
+Theorem C15_uq_constant_vector_model : forall w k c e n,
+  length w = n -> sumQ w = 1 -> ev_combi 2 w (repeat [k; c * k + e] n) = ([k; c * k + e], [0; 0]).
+Proof. exact uq_constant_vector_model. Qed.
+(* ---- ... and on the combined sparse-grid rule of any combination with coefficient sum 1 ---- *)
+Theorem C15_uq_combined_rule_laws : forall (comps : list (Qc * list (list Qc))) f c e,
+  sumQ (map fst comps) = 1 ->
+  (forall cw, In cw comps -> forall w, In w (snd cw) -> sumQ w = 1) ->
+  let W := combined_weights comps in
+  length W = length f ->
+  ev_combi 2 W (map (fun t => [t; c * t + e]) f)
+  = ([rule_mom1 W f; c * rule_mom1 W f + e], [variance_of W f; c * c * variance_of W f])
+  /\ ev_nodes 2 W (map (fun t => [t; c * t + e]) f) = ev_combi 2 W (map (fun t => [t; c * t + e]) f)
+  /\ 0 <= variance_of W f.
+Proof. exact uq_combined_rule_laws. Qed.
+Print Assumptions C15_ev_combi_spec.
+Print Assumptions C15_ev_nodes_is_ev_combi.
+Print Assumptions C15_uq_affine_vector_model.
+Print Assumptions C15_uq_combined_rule_laws.
+Print Assumptions C15_triangle_moments_ok.
+Print Assumptions C15_grid_weights_boundary.
+Print Assumptions C15_tensor_weights_sum.
+Print Assumptions C15_combined_weights_sum.
+Print Assumptions C15_integrate_rule_comp.
+Print Assumptions C15_uq_constant_vector_model.
+
+(* ---- the weighted midpoint for the uniform distribution in closed form ---- *)
+Theorem C15_mid_uniform : forall A B a b : Qc,
+  A < B -> a < b ->
+  let m := Qchalf * (a + b) in
+  get_middle_weighted (Fin a) (Fin b) (Fin m) = Some (Fin m) /\ a < m /\ m < b /\ uni_m0 A B a m = uni_m0 A B m b.
+Proof. exact mid_uniform. Qed.
+Print Assumptions C15_mid_uniform.
+
+Print Assumptions C15_uniform_moments_ok.
+Print Assumptions C15_mid_equal_probability.
+Print Assumptions C15_expectation_affine.
+Print Assumptions C15_variance_nonneg.
+Print Assumptions C15_variances_nonneg.
+Print Assumptions C15_variances_spec.
+Print Assumptions C15_variance_from_moments_affine.
+
 (* ---- non-vacuity ---- *)
 Definition q (n : Z) (d : positive) : Qc := Q2Qc (n # d).
 Definition g6 := [q (-1) 1; q (-1) 2; q 0 1; q 1 1; q 2 1; q 3 1].
@@ -133,3 +264,37 @@ Example C15_nonvacuous_moments :
   sumQ w = 1 /\ this (variance_of w f) = (15 # 4)%Q /\
   this (variance_of w (map (fun t => q 3 1 * t + q (-2) 1) f)) = (135 # 4)%Q.
 Proof. cbv zeta. split; [apply Qc_is_canon; vm_compute; reflexivity | split; vm_compute; reflexivity]. Qed.
+
+(* ---- non-vacuity of the second part ---- *)
+Definition g5 := [q 0 1; q 1 4; q 1 2; q 3 4; q 1 1].
+Definition g3 := [q 0 1; q 1 2; q 1 1].
+(* triangle distribution on [0,1] with mode 3/10 on five equidistant points (the implementation returns
+   [0.0694, 0.3659, 0.3563, 0.1786, 0.0298]; its first moments come from a quadrature with epsrel = 1e-2) *)
+Example C15_nonvacuous_triangle :
+  strictly_increasing g5 /\ q 0 1 < q 3 10 /\ q 3 10 < q 1 1 /\
+  qs (wtrap true false (q 0 1) (q 1 1) (tri_ivals (q 0 1) (q 3 10) (q 1 1) g5)) = Some [5 # 72; 461 # 1260; 449 # 1260; 5 # 28; 5 # 168]%Q /\
+  qs (wtrap false false (q 0 1) (q 1 1) (tri_ivals (q 0 1) (q 3 10) (q 1 1) g5)) = Some [0; 461 # 1135; 449 # 1135; 45 # 227; 0]%Q.
+Proof.
+  split; [apply si_dec; vm_compute; reflexivity|]. split; [apply Qc_ltb_lt; vm_compute; reflexivity|].
+  split; [apply Qc_ltb_lt; vm_compute; reflexivity|]. split; vm_compute; reflexivity.
+Qed.
+(* a two-dimensional grid, triangle x uniform on ONE point list: each dimension gets the weights of its own distribution,
+   the tensor weights sum to 1; a combination (1,2) + (2,1) - (1,1): 39 combined weights of either sign summing to 1 *)
+Definition dT := {| d_a := q 0 1; d_b := q 1 1; d_ivs := tri_ivals (q 0 1) (q 3 10) (q 1 1) g5 |}.
+Definition dU := {| d_a := q 0 1; d_b := q 1 1; d_ivs := uni_ivals (q 0 1) (q 1 1) g5 |}.
+Definition dT3 := {| d_a := q 0 1; d_b := q 1 1; d_ivs := tri_ivals (q 0 1) (q 1 2) (q 1 1) g3 |}.
+Definition dU3 := {| d_a := q 0 1; d_b := q 1 1; d_ivs := uni_ivals (q 0 1) (q 1 1) g3 |}.
+Example C15_nonvacuous_grid :
+  option_map (map (map this)) (set_grid_weights true false [dT; dU])
+    = Some [[5 # 72; 461 # 1260; 449 # 1260; 5 # 28; 5 # 168]; [1 # 8; 1 # 4; 1 # 4; 1 # 4; 1 # 8]]%Q /\
+  option_map (map (map this)) (set_grid_weights true false [dT3; dU3]) = Some [[1 # 6; 2 # 3; 1 # 6]; [1 # 4; 1 # 2; 1 # 4]]%Q /\
+  option_map (fun ws => this (sumQ (tensor_weights ws))) (set_grid_weights true false [dT; dU]) = Some 1%Q /\
+  option_map (fun w => (length w, this (sumQ w), existsb (fun t => Qc_ltb t 0) w))
+             (combined_weights_req true [(q 1 1, [dT3; dU]); (q 1 1, [dT; dU3]); (q (-1) 1, [dT3; dU3])]) = Some (39%nat, 1%Q, true).
+Proof. repeat split; vm_compute; reflexivity. Qed.
+(* both evaluation paths on a rule with a negative weight, vector model (f, 3 f - 2) *)
+Example C15_nonvacuous_ev :
+  let w := [q 3 4; q (-1) 4; q 1 2] in let vals := map (fun t => [t; q 3 1 * t + q (-2) 1]) [q 1 1; q 5 1; q 2 1] in
+  (fun p => (map this (fst p), map this (snd p))) (ev_combi 2 w vals) = ([1 # 2; -1 # 2], [15 # 4; 135 # 4])%Q /\
+  (fun p => (map this (fst p), map this (snd p))) (ev_nodes 2 w vals) = ([1 # 2; -1 # 2], [15 # 4; 135 # 4])%Q.
+Proof. cbv zeta. split; vm_compute; reflexivity. Qed.
